@@ -47,6 +47,9 @@ func ReplaceOffenderKeys(validators types.ValidatorsData) types.ValidatorsData {
 	posteriorState := blockchain.GetInstance().GetPosteriorStates()
 	offendersMark := posteriorState.GetPsiO()
 
+	// Phi(k) builds a new sequence: the caller's validators must stay untouched
+	validators = append(types.ValidatorsData(nil), validators...)
+
 	for i, validator := range validators {
 		if ValidatorIsOffender(validator, offendersMark) {
 			// Replace the validator's keys with a null key
